@@ -16,6 +16,7 @@
 -/
 import MainlineModel.Lemmas.KrpcLemmas
 import MainlineModel.Gen.PanicSites
+import MainlineModel.Gen.FacadeTwins
 import MainlineModel.Model.Server
 namespace Mainline.Props.C05
 open Mainline Mainline.Krpc
@@ -143,5 +144,12 @@ theorem no_open_remote_site : ∀ s ∈ classified, s.2.1 ≠ "remote-open" := b
 /-- the datagram that used to kill a node (put with k but no seq) now decodes to an error -/
 example : (match fromBytes ([100, 49, 58, 97, 100] ++ List.replicate 20 0) with | .ok none => true | _ => false) = true := by
   decide +kernel
+
+
+/-- **T1 obligation — the two facades are twins.**  The correspondence streams drive the async facade
+    (`AsyncDht`); the sync facade (`Dht`) is covered through this obligation: method by method its body
+    equals the async one after normalisation (`.await`, `recv_async`, stream/iterator wrappers), as read
+    from the working tree by `tools/facade_twins.py` on every run. -/
+theorem facade_twins_agree : Mainline.Gen.facadeTwins.all (·.2) = true := by decide
 
 end Mainline.Props.C05
